@@ -49,6 +49,14 @@ def check(impl, scn):
 
 
 def check_stats(impl, scn):
+    try:
+        return _check_stats(impl, scn)
+    except Exception as e:                      # a monitor never raises; its own failure is reported as such
+        import traceback
+        return [("monitor-error", repr(e) + " " + traceback.format_exc()[-300:].replace("\n", " | "))], {}
+
+
+def _check_stats(impl, scn):
     """-> (failures, counters). Destination rule (what the sender put on the wire, NAT or not):
          UDP record: the endpoint given to the send_to call the datagram comes from;
          TCP record of a connecting socket (source = the `from=` of its SYN): the endpoint given to connect;
